@@ -208,6 +208,11 @@ pub struct BCounters {
 
 pub fn check_c05(s: &str, sink: &Sink, c: &BCounters, family: &str) {
     c.strings.fetch_add(1, AO::Relaxed);
+    // a different history first: a sibling text (same version, other build metadata / spelling)
+    if s.len() < 40 {
+        let _ = guarded(|| Version::parse(format!("{}+zz.9", s)).map(|v| v.to_string()));
+        let _ = guarded(|| Version::parse(format!("v{}", s)).map(|v| v.to_string()));
+    }
     let d = recognise(s);
     let case = || json!({"engine":"B","kind":"version","input":s});
     let got = match guarded(|| Version::parse(s)) {
